@@ -139,6 +139,7 @@ def fit_minuit_v2(fcn, bounds_dict={}, hesse=True, minos=False, **kwargs):
         now = time.time()
         m.minos()  # (var="")
         print("MINOS Time", time.time() - now)
+    fcn.vm.set_all(np.array(m.values))  # the model holds the returned point, not the last evaluated one
     ndf = len(var_names)
     ret = FitResult(
         dict(zip(var_names, m.values)), fcn, m.fval, ndf=ndf, success=m.valid
